@@ -7,7 +7,9 @@ context (tick), so the output shows both replayed text and whether the body ran.
 cache[(template, key)] = output.  A recording CacheImpl registered with mako.cache logs every
 backend call with its keyword arguments (argument precedence, timeout type, context).
 """
+import copy
 import os
+import time
 import shutil
 import tempfile
 
@@ -31,7 +33,7 @@ ASSUMPTIONS = [
     "dogpile regions are keyed by key only (third-party plugin), so each template gets regions of its own",
 ]
 MIN_NONTRIVIAL = 100
-REQUIRED_COUNTERS = ["renders", "cache_hits_predicted", "reexecutions_after_invalidate", "backend_calls_logged", "kwargs_checked", "disabled_renders"]
+REQUIRED_COUNTERS = ["renders", "recompiles_under_the_same_uri", "cache_hits_predicted", "reexecutions_after_invalidate", "backend_calls_logged", "kwargs_checked", "disabled_renders"]
 
 _st = {"counter": 0}
 
@@ -39,6 +41,7 @@ _st = {"counter": 0}
 class Rec:
     """process-wide recording backend state"""
     store = {}
+    created = {}
     log = []
     pass_context = False
 
@@ -57,16 +60,22 @@ def setup_worker():
         def get_or_create(self, key, creation_function, **kw):
             Rec.log.append(("get_or_create", self.cache.id, key, dict(kw)))
             k = (self.cache.id, key)
-            if k not in Rec.store:
+            # like the Beaker backend: an entry stored before the owning Template was compiled (Cache.starttime)
+            # belongs to the template this one replaced and is not served
+            if k not in Rec.store or Rec.created.get(k, 0) < self.cache.starttime:
                 Rec.store[k] = creation_function()
+                Rec.created[k] = time.time()
             return Rec.store[k]
 
         def set(self, key, value, **kw):
             Rec.log.append(("set", self.cache.id, key, dict(kw)))
             Rec.store[(self.cache.id, key)] = value
+            Rec.created[(self.cache.id, key)] = time.time()
 
         def get(self, key, **kw):
             Rec.log.append(("get", self.cache.id, key, dict(kw)))
+            if Rec.created.get((self.cache.id, key), 0) < self.cache.starttime:
+                return None
             return Rec.store.get((self.cache.id, key))
 
         def invalidate(self, key, **kw):
@@ -108,7 +117,17 @@ def gen_spec(r, tag):
         tpl_args["timeout"] = 999
     if r.random() < 0.3:
         tpl_args["tonly"] = "t"
-    return {"tag": tag, "sec": sec, "tpl_args": tpl_args}
+    return {"tag": tag, "sec": sec, "tpl_args": tpl_args, "d0sig": r.randrange(len(D0SIGS)) if r.random() < 0.5 else 0}
+
+
+# signatures of the cached def d0: (signature, extra call arguments, extra body text, what that text renders)
+D0SIGS = [
+    ("a", "", "", ""),
+    ("a, *va, ko", ", 'v', ko='k'", "${ko}${va}", "k('v',)"),
+    ("a, *va, ko='z', **kw", ", 'v', q=1", "${ko}${sorted(kw)}", "z['q']"),
+    ("a, b='B', **kw", ", b='b2', z=3", "${b}${sorted(kw)}", "b2['z']"),
+    ("a, b='B'", "", "${b}", "B"),
+]
 
 
 def attrs(s, name, dog=None):
@@ -133,13 +152,14 @@ def emit(spec, dog=None):
     if page == "<%page/>":
         page = ""
     d0key = ' cache_key="d0-${str(a)}"' if S["d0"]["cached"] and S["d0"]["key"] else ""
+    sig, cx, bx, _ = D0SIGS[spec.get("d0sig", 0)]
     text = (
         page + "\n<%!\ndef fz(s):\n    return 'fz(' + s + ')'\n%>"
         + "BODY:" + T + "[${tick('body')}|${x}]"
-        + "${d0(1)}${d0(2)}${d0(1)}${d1()}"
+        + "${d0(1%s)}${d0(2%s)}${d0(1%s)}${d1()}" % (cx, cx, cx)
         + "<%%block name=\"b0\"%s>B0:%s[${tick('b0')}|${x}]</%%block>" % (attrs(S["b0"], "b0", dog), T)
         + "<%%block%s>AN:%s[${tick('anon')}|${x}]</%%block>" % (attrs(S["anon"], "anon", dog), T)
-        + "<%%def name=\"d0(a)\"%s%s>D0:%s[${a}|${tick('d0')}|${x}]</%%def>" % (attrs(S["d0"], "d0", dog), d0key, T)
+        + "<%%def name=\"d0(%s)\"%s%s>D0:%s[${a}%s|${tick('d0')}|${x}]</%%def>" % (sig, attrs(S["d0"], "d0", dog), d0key, T, bx)
         + "<%%def name=\"d1()\"%s>D1:%s[${tick('d1')}|${x}]${inner()}<%%def name=\"inner()\"%s>IN:%s[${tick('inner')}|${x}]</%%def></%%def>"
         % (attrs(S["d1"], "d1", dog), T, attrs(S["inner"], "inner", dog), T)
     )
@@ -184,7 +204,7 @@ class Model:
 
         def d0(a):
             key = "d0-%s" % a if S["d0"]["key"] else "render_d0"
-            return self.section("d0", key, lambda: "D0:%s[%s|%d|%s]" % (T, a, self.tick("d0"), x))
+            return self.section("d0", key, lambda: "D0:%s[%s%s|%d|%s]" % (T, a, D0SIGS[self.spec.get("d0sig", 0)][3], self.tick("d0"), x))
 
         def d1():
             return self.section("d1", "render_d1", lambda: "D1:%s[%d|%s]" % (T, self.tick("d1"), x) + inner())
@@ -233,10 +253,11 @@ def run_history(case, res):
     uid = "%d_%d" % (os.getpid(), _st["counter"])
     ntpl = r.choice([1, 1, 2, 3])
     punct = ntpl >= 2 and r.random() < 0.5
-    specs, tpls, models, tickers = [], [], [], []
+    specs, tpls, models, tickers, build = [], [], [], [], []
     qmodels = []      # quirk universe for C17/cache-id-collision: colliding templates share one store
     qstore = {}
     Rec.store.clear()
+    Rec.created.clear()
     del Rec.log[:]
     Rec.pass_context = r.random() < 0.5
     for i in range(ntpl):
@@ -262,6 +283,7 @@ def run_history(case, res):
             res.violate("compile-raises", "template %r raised %s: %s" % (text, type(e).__name__, e))
             return
         specs.append(spec)
+        build.append((impl, cargs, dog))
         tpls.append(t)
         models.append(Model(spec))
         qmodels.append(Model(spec, qstore))
@@ -366,10 +388,32 @@ def run_history(case, res):
                     if j != i and not punct and t2.cache.get(key) == val and not any(f == ("set", j, key) for f in flags):
                         res.violate("entry-served-to-other-template", "%s: key %r set on %s is visible through %s" % (what, key, t.uri, t2.uri), replay_case=rc)
                 flags.add(("set", i, key))
-        else:
+        elif k < 0.96 or punct or backend == "dogpile":
             m.enabled = not m.enabled
             qmodels[i].enabled = m.enabled
             t.cache_enabled = m.enabled
+        else:
+            # the template is edited and compiled again under the same URI (what TemplateLookup does when the file
+            # changed): it is another template, none of the entries of the one it replaces may be served to it.
+            # (the dogpile plugin lives outside Mako and does not look at Cache.starttime: not exercised)
+            impl, cargs, dog = build[i]
+            spec2 = copy.deepcopy(spec)
+            spec2["tag"] = spec["tag"] + "r"
+            text2 = emit(spec2, dog)
+            at = text2.index("<%block" + attrs(spec2["sec"]["anon"], "anon", dog) + ">AN:")
+            spec2["anon_key"] = "__M_anon_%d_%d" % (text2.count("\n", 0, at) + 1, at - text2.rfind("\n", 0, at))
+            try:
+                t2 = _st["Template"](text2, uri=t.uri, cache_impl=impl, cache_args=cargs)
+            except Exception as e:
+                res.violate("compile-raises", "template %r raised %s: %s" % (text2, type(e).__name__, e), replay_case=rc)
+                return
+            t2.cache_enabled = m.enabled
+            m2 = Model(spec2)
+            m2.enabled, m2.ticks = m.enabled, m.ticks
+            q2 = Model(spec2, qstore)
+            q2.enabled, q2.ticks = m.enabled, qmodels[i].ticks
+            tpls[i], specs[i], models[i], qmodels[i] = t2, spec2, m2, q2
+            res.count("recompiles_under_the_same_uri")
     if "hit" in flags and "reexec" in flags:
         res.nontrivial("c17", backend, [tt.source for tt in tpls], case["index"], case["j"])
     if res.sample is None:
